@@ -519,7 +519,45 @@ def d6_reference(chk: Check) -> None:
                          "or crashes on the wrong element")
 
 
+def d6b_guard_completeness(chk: Check) -> None:
+    """An index guard must accept every valid index (-len <= i < len): a
+    guard that is merely *safe* silently drops matches."""
+    from sa.smalldomain import guards_for, index_guard_table
+    prog = chk.prog
+    chk.rule("C01-D6b", "index guards of the key / index / slice handlers "
+             "accept exactly the valid indexes (evaluated for len 0..4 and "
+             "every index -len-2..len+2)", floor=4)
+    for name in ("Processor._get_nodes_by_index",
+                 "Processor._get_nodes_by_key"):
+        fi = prog.func(name)
+        data = fi.params()[1]
+        idx_vars = set()
+        for n in walk_local(fi.node):
+            if isinstance(n, ast.Subscript) and src(n.value) == data and \
+                    isinstance(n.ctx, ast.Load) and \
+                    isinstance(n.slice, ast.Name):
+                idx_vars.add(n.slice.id)
+        for iv in sorted(idx_vars):
+            for node, guard, neg in guards_for(fi.node, data, iv):
+                from sa.guards import terminates
+                neg = terminates(node.body) != neg
+                rej, acc, decided = index_guard_table(guard, data, iv, neg)
+                text = "{}{}".format("not " if neg else "", src(guard))
+                if not decided:
+                    chk.fail("C01-D6b", fi, node, text,
+                             "index guard could not be evaluated over small "
+                             "lengths (unsupported form)")
+                elif rej or acc:
+                    chk.fail("C01-D6b", fi, node, text,
+                             "index guard rejects valid indexes {} / accepts "
+                             "invalid ones {}".format(rej[:3], acc[:3]))
+                else:
+                    chk.ok("C01-D6b", fi, node, text,
+                           "accepts exactly -len <= {} < len".format(iv))
+
+
 def run(chk: Check) -> None:
+    d6b_guard_completeness(chk)
     d1_dispatch(chk)
     d2_drivers(chk)
     d3_notation(chk)
